@@ -291,14 +291,14 @@ pub fn build_inputs(cfg: &Cfg) -> Vec<Input> {
             continue;
         }
         if let Ok(Some(cov)) = observe(|| pseudo_toroidal_cover(&to_partial_dsym(c)).map(|x| from_dsym(&x))) {
-            if !cov.is_valid_symbol() || !three_d::unbranched(&cov) || cov.n > cfg.tier.pick(260, 400) {
+            if !cov.is_valid_symbol() || !three_d::unbranched(&cov) || cov.n > cfg.tier.pick(260, 300) {
                 continue;
             }
             if let Ok(list) = observe(|| rust_dsymbols::covers::covers(&to_partial_dsym(&cov), 4).iter().map(|x| from_dsym(x)).collect::<Vec<_>>()) {
                 for sheets in 2..=4usize {
                     let mut of_size: Vec<&MSym> = list.iter().filter(|x| x.n == sheets * cov.n && x.is_valid_symbol() && three_d::unbranched(x)).collect();
                     rng.shuffle(&mut of_size);
-                    for x in of_size.into_iter().take(cfg.tier.pick(if sheets == 4 { 12 } else { 3 }, 40)) {
+                    for x in of_size.into_iter().take(cfg.tier.pick(if sheets == 4 { 12 } else { 3 }, 16)) {
                         inputs.push(Input { name: format!("{}-sheeted cover of the pseudo-toroidal cover of corpus symbol {} ({} chambers)", sheets, gen::EUCLIDEAN_CORPUS[ci], x.n), set: MSym::from_ops(3, x.n, x.op.clone()), topology_clause: true, fed_by_euclidicity: true, corpus_index: Some(ci) });
                     }
                 }
@@ -401,7 +401,7 @@ pub fn run(cfg: &Cfg) -> Report {
     let ctx = par_items(cfg, &inputs, |ctx, k, inp| {
         let inv = input_invariants(inp);
         let mut results = vec![];
-        let reps = if inp.name.contains("[regression numbering]") { 4 * reps } else if inp.name.contains("cover renumbered") { (reps / 3).max(2) } else if inp.name.starts_with("lens space") { 2 * reps } else { reps };
+        let reps = if inp.name.contains("-sheeted cover of the pseudo-toroidal cover") { cfg.tier.pick(5, 3) } else if inp.name.contains("[regression numbering]") { 4 * reps } else if inp.name.contains("cover renumbered") { (reps / 3).max(2) } else if inp.name.starts_with("lens space") { 2 * reps } else { reps };
         judge(ctx, inp, &inv, reps, &mut results);
         if let Some(ci) = inp.corpus_index {
             corpus_results.lock().unwrap().push((ci, results));
